@@ -975,3 +975,63 @@ func mask1(w int) uint64 {
 	}
 	return mask(w)
 }
+
+// RawLike builds a node with the operator and parameters of t over new
+// children, without any simplification.
+func RawLike(t *Term, a, b, c *Term) *Term {
+	n := &Term{Op: t.Op, W: t.W, A: a, B: b, C: c, Val: t.Val, Hi: t.Hi, Lo: t.Lo, Name: t.Name}
+	return intern(n)
+}
+
+// Abstract generalises the rewrite lemma raw == res: subterms of raw at depth
+// D (and deeper) are replaced by placeholder variables, consistently in both
+// sides. If the abstract lemma is valid then so is the instance.
+func Abstract(raw, res *Term, depth int) (*Term, *Term) {
+	ph := map[*Term]*Term{}
+	n := 0
+	var up func(t *Term, d int) *Term
+	up = func(t *Term, d int) *Term {
+		if t == nil {
+			return nil
+		}
+		if t.Op == OpConst {
+			return t
+		}
+		if p, ok := ph[t]; ok {
+			return p
+		}
+		if d >= depth || t.Op == OpVar {
+			p := Var(fmt.Sprintf("ph%d_w%d", n, t.W), t.W)
+			n++
+			ph[t] = p
+			return p
+		}
+		return RawLike(t, up(t.A, d+1), up(t.B, d+1), up(t.C, d+1))
+	}
+	araw := up(raw, 0)
+	memo := map[*Term]*Term{}
+	var sub func(t *Term) *Term
+	sub = func(t *Term) *Term {
+		if t == nil {
+			return nil
+		}
+		if t.Op == OpConst {
+			return t
+		}
+		if p, ok := ph[t]; ok {
+			return p
+		}
+		if m, ok := memo[t]; ok {
+			return m
+		}
+		var r *Term
+		if t.Op == OpVar {
+			r = t
+		} else {
+			r = RawLike(t, sub(t.A), sub(t.B), sub(t.C))
+		}
+		memo[t] = r
+		return r
+	}
+	return araw, sub(res)
+}
